@@ -2,7 +2,7 @@
    HRep cap h s: the byte-level history h (NUL-separated buffer, byte cursor) represents the abstract history s
    (entry list oldest first, position); in particular entries are NUL-free, non-empty, pairwise distinct and fit. *)
 From EC Require Import Base Model.Input Model.History Model.Sink Model.Cli Spec.HistSpec Spec.Session Proofs.ListFacts Proofs.HistoryProofs
-  Proofs.SinkOk Proofs.SafetyProofs Proofs.SessionProofs.
+  Proofs.SinkOk Proofs.SafetyProofs Proofs.SessionProofs Proofs.WholeHistory.
 
 (* (1) refinement: every operation (push of ANY line, older, newer) on a represented state does not panic, returns what the
    abstract history returns - byte for byte - and ends in a represented state; every history size *)
@@ -64,6 +64,23 @@ Proof.
 Qed.
 Print Assumptions C10_navigation.
 
+(* the closed form over the WHOLE submission history (retained cap L = the longest suffix that fits of the acceptable lines of L, each
+   kept at its last submission): after ANY sequence of submitted lines - duplicates, empty lines, lines that cannot fit, any number of
+   evictions on the way - the history holds exactly retained cap L, and the position is reset; the same for the byte-level buffer;
+   and pressing Up as many times as there are entries shows every one of them, newest first *)
+Theorem C10_whole_history : forall cap L,
+  ents (fold_left (hs_push cap) L hspec0) = retained cap L /\ pos (fold_left (hs_push cap) L hspec0) = None.
+Proof. exact whole_history. Qed.
+Print Assumptions C10_whole_history.
+Theorem C10_whole_history_bytes : forall cap L, exists h', option_map fst (hist_run (hist_new cap) (map HPush L)) = Some h' /\
+  HRep cap h' {| ents := retained cap L; pos := None |}.
+Proof. exact whole_history_bytes. Qed.
+Print Assumptions C10_whole_history_bytes.
+Theorem C10_recall_all : forall cap es,
+  snd (hs_run cap {| ents := es; pos := None |} (repeat HOlder (length es))) = map Some (rev es).
+Proof. exact recall_all. Qed.
+Print Assumptions C10_recall_all.
+
 (* through the whole Cli: for every byte received the history buffer afterwards represents the abstract history of the abstract session
    after the decoded event: Enter records the line exactly as it stands (hs_push of its bytes, blanks included), Up / Down move the
    position (hs_older / hs_newer) and show the entry, nothing else touches it - every buffer size, feature set, command set, handler *)
@@ -75,6 +92,11 @@ Proof.
   destruct (process_byte_refines feats cs handler Hcs cap hcap b s a r s' Hb HS E) as (-> & (_ & H & _) & _). auto.
 Qed.
 Print Assumptions C10_cli.
+
+(* ab, c, an empty line, e-acute, ab again, a line that cannot fit, def - into an 8-byte history: c and e-acute had to go for def, ab moved up *)
+Example C10_whole_nonvacuous :
+  retained 8 [[97;98]; [99]; []; [0xC3;0xA9]; [97;98]; [1;2;3;4;5;6;7;8;9]; [100;101;102]] = [[97;98]; [100;101;102]].
+Proof. vm_compute. reflexivity. Qed.
 
 Example C10_nonvacuous :
   let os := [HPush [97;98]; HPush [99]; HPush [0xC3;0xA9]; HPush [97;98]; HOlder; HOlder; HOlder; HOlder; HNewer; HPush [100;101;102;103]; HOlder; HOlder] in
